@@ -28,16 +28,36 @@ package tubes
 //@   pure
 //@   ensures err == nil ==> f != nil && fresh(f) && int(f.dataLength) == len(f.data) && len(f.data) + 12 <= (len(b) < 12 ? 12 : len(b))
 //@   ensures len(b) < 10 ==> err != nil
+// (C18) decoding: a message that holds its header and the data it announces is accepted, and the fields are these bytes
+//@   ensures len(b) >= 12 && (int(b[2]) << 8) + int(b[3]) <= len(b) - 12 ==> err == nil
+//@   ensures err == nil && len(b) >= 12 ==> f.tubeID == b[0] && f.dataLength == (uint16(b[2]) << 8) | uint16(b[3])
+//@   ensures err == nil && len(b) >= 12 ==> f.ackNo == (uint32(b[4]) << 24) | (uint32(b[5]) << 16) | (uint32(b[6]) << 8) | uint32(b[7]) &&
+//@        f.frameNo == (uint32(b[8]) << 24) | (uint32(b[9]) << 16) | (uint32(b[10]) << 8) | uint32(b[11])
+//@   ensures err == nil && len(b) >= 12 ==> bytes(f.data) == bytes(b[12:12+len(f.data)])
+//@   ensures err == nil && len(b) >= 12 ==> (f.flags.REQ <==> b[1] & 1 != 0) && (f.flags.RESP <==> b[1] & 2 != 0) && (f.flags.REL <==> b[1] & 4 != 0) &&
+//@        (f.flags.ACK <==> b[1] & 8 != 0) && (f.flags.FIN <==> b[1] & 16 != 0) && (f.flags.RTR <==> b[1] & 32 != 0)
 
 //@ func (p *frame) toBytes() (out []byte)
 //@   property C11
 //@   pure
 //@   ensures len(out) == 12 + len(p.data) && out[2] == uint8(p.dataLength >> 8) && out[3] == uint8(p.dataLength)
+// (C18) encoding: every header field and the data, at its offset
+//@   ensures out[0] == p.tubeID && out[4] == uint8(p.ackNo >> 24) && out[5] == uint8(p.ackNo >> 16) && out[6] == uint8(p.ackNo >> 8) && out[7] == uint8(p.ackNo) &&
+//@        out[8] == uint8(p.frameNo >> 24) && out[9] == uint8(p.frameNo >> 16) && out[10] == uint8(p.frameNo >> 8) && out[11] == uint8(p.frameNo)
+//@   ensures bytes(out[12:]) == bytes(p.data)
+//@   ensures (p.flags.REQ <==> out[1] & 1 != 0) && (p.flags.RESP <==> out[1] & 2 != 0) && (p.flags.REL <==> out[1] & 4 != 0) &&
+//@        (p.flags.ACK <==> out[1] & 8 != 0) && (p.flags.FIN <==> out[1] & 16 != 0) && (p.flags.RTR <==> out[1] & 32 != 0) && out[1] & 192 == 0
 
 //@ func (p *initiateFrame) toBytes() (out []byte)
 //@   property C11
 //@   pure
 //@   ensures len(out) == 10 + len(p.data)
+// (C18) encoding: every header field and the data, at its offset
+//@   ensures out[0] == p.tubeID && out[2] == uint8(p.dataLength >> 8) && out[3] == uint8(p.dataLength) && out[4] == uint8(p.tubeType) && out[5] == 0 &&
+//@        out[6] == uint8(p.frameNo >> 24) && out[7] == uint8(p.frameNo >> 16) && out[8] == uint8(p.frameNo >> 8) && out[9] == uint8(p.frameNo)
+//@   ensures bytes(out[10:]) == bytes(p.data)
+//@   ensures (p.flags.REQ <==> out[1] & 1 != 0) && (p.flags.RESP <==> out[1] & 2 != 0) && (p.flags.REL <==> out[1] & 4 != 0) &&
+//@        (p.flags.ACK <==> out[1] & 8 != 0) && (p.flags.FIN <==> out[1] & 16 != 0) && (p.flags.RTR <==> out[1] & 32 != 0)
 
 // fromInitiateBytes has no error result: its callers must pass a message that holds the 10-byte header
 // and the data length that header announces (proved at the muxer's two call sites).
@@ -46,6 +66,12 @@ package tubes
 //@   pure
 //@   requires len(b) >= 10 && (int(b[2]) << 8) + int(b[3]) <= len(b) - 10 && len(b) <= 65535
 //@   ensures f != nil
+// (C18) decoding: the fields are these bytes; the data is the announced window of the message (not copied)
+//@   ensures f.tubeID == b[0] && f.dataLength == (uint16(b[2]) << 8) | uint16(b[3]) && uint8(f.tubeType) == b[4] &&
+//@        f.frameNo == (uint32(b[6]) << 24) | (uint32(b[7]) << 16) | (uint32(b[8]) << 8) | uint32(b[9])
+//@   ensures len(f.data) == int(f.dataLength) && bytes(f.data) == bytes(b[10:10+len(f.data)])
+//@   ensures (f.flags.REQ <==> b[1] & 1 != 0) && (f.flags.RESP <==> b[1] & 2 != 0) && (f.flags.REL <==> b[1] & 4 != 0) &&
+//@        (f.flags.ACK <==> b[1] & 8 != 0) && (f.flags.FIN <==> b[1] & 16 != 0) && (f.flags.RTR <==> b[1] & 32 != 0)
 
 //@ func (c transport.MsgConn) ReadMsg(b []byte) (n int, err error)
 //@   assume message connection (transport.Handle / Client / test doubles): on success 0 <= n <= len(b)
@@ -118,3 +144,31 @@ package tubes
 //@   property C11
 //@   loop 1
 //@     invariant len(m.readBuf) == 65535
+
+// ===========================================================================
+// C18: frame encodings round-trip (harnesses in zz_hooks_verif.go compose the real encoder and decoder)
+// ===========================================================================
+//@ func verifFrameRoundTrip(p *frame) (q *frame, err error)
+//@   property C18
+//@   requires int(p.dataLength) == len(p.data)
+//@   ensures err == nil && q != nil && q.tubeID == p.tubeID && q.dataLength == p.dataLength && q.ackNo == p.ackNo && q.frameNo == p.frameNo &&
+//@        len(q.data) == len(p.data) && bytes(q.data) == bytes(p.data)
+//@   ensures (q.flags.REQ <==> p.flags.REQ) && (q.flags.RESP <==> p.flags.RESP) && (q.flags.REL <==> p.flags.REL) &&
+//@        (q.flags.ACK <==> p.flags.ACK) && (q.flags.FIN <==> p.flags.FIN) && (q.flags.RTR <==> p.flags.RTR)
+
+//@ func verifFlagsRoundTrip(f frameFlags) (g frameFlags)
+//@   property C18
+//@   ensures (g.REQ <==> f.REQ) && (g.RESP <==> f.RESP) && (g.REL <==> f.REL) && (g.ACK <==> f.ACK) && (g.FIN <==> f.FIN) && (g.RTR <==> f.RTR)
+
+// re-encoding a decoded flag byte keeps the six defined bits (the two undefined ones are dropped)
+//@ func verifMetaRoundTrip(b byte) (c byte)
+//@   property C18
+//@   ensures c == b & 63
+
+//@ func verifInitiateFrameRoundTrip(p *initiateFrame) (q *initiateFrame)
+//@   property C18
+//@   requires int(p.dataLength) == len(p.data) && len(p.data) <= 65525
+//@   ensures q != nil && q.tubeID == p.tubeID && q.dataLength == p.dataLength && q.frameNo == p.frameNo && q.tubeType == p.tubeType &&
+//@        len(q.data) == len(p.data) && bytes(q.data) == bytes(p.data)
+//@   ensures (q.flags.REQ <==> p.flags.REQ) && (q.flags.RESP <==> p.flags.RESP) && (q.flags.REL <==> p.flags.REL) &&
+//@        (q.flags.ACK <==> p.flags.ACK) && (q.flags.FIN <==> p.flags.FIN) && (q.flags.RTR <==> p.flags.RTR)
